@@ -401,6 +401,12 @@ int main(int argc, char** argv)
 }
 static int Run()
 {
+    if (!vx::ctx().replay.empty()) {
+        // a replay file names one case (and carries the file bytes); the enumeration is cheap, so the whole check is re-run
+        std::ifstream f(vx::ctx().replay);
+        std::string l;
+        while (std::getline(f, l)) printf("replay> %s\n", l.substr(0, 400).c_str());
+    }
     setenv("RANDOM_CTX_SEED", "c20c20c20c20", 1);
     auto& E = vx::ev();
     const bool big = vx::thorough();
